@@ -12,7 +12,8 @@ DECIDED = [
     "INVALIDATE: removal swaps to the last slot, pops the element, reads the handle of that last slot, marks it not-in-queue (SIZE_MAX), pops the handle slot, then re-sifts; clear marks every handle; a fresh handle is not-in-queue",
     "GUARD: remove-by-handle is dominated by index < length and a present handle array; pop/top by length != 0",
     "ROLLBACK: after the element was appended, every failing exit pops it again exactly once and every successful exit sifts it up",
-    "HEAP-SHAPE: child/parent index formulas, comparator used with one polarity (> 0) in sift-up and sift-down, re-sift after a removal that moved an element",
+    "COVER(push_ref): the zero fill of a freshly created handle array starts at the array and covers at least (index+1) pointer slots (NUM)",
+    "HEAP-SHAPE: s_sift_either re-sifts on every path (sift-up unless root, sift-down unless sift-up moved); child/parent index formulas, comparator used with one polarity (> 0) in sift-up and sift-down, re-sift after a removal that moved an element",
     "BOUND/COVER: the zero-fill of a freshly created handle array stays inside it; the sliced element swap stays in bounds and exchanges all item_size bytes (NUM)",
 ]
 NOT_DECIDED = ["heap order as a numeric fact over all histories (pop returns a minimum)", "multiset equality with a reference"]
@@ -58,6 +59,13 @@ def analyse(ctx, replace=None, only=None):
                     r = in_bounds(s2, D, sz)
                     n += 1
                     R.check(r[0] == "ok", "BOUND", "%s:%s" % (name, f.show(nd)[:50]), where(f, nd), r[1], "cannot establish the bound: " + r[1])
+                    if name == "aws_priority_queue_push_ref" and nd.get("callee") in ("memset", "__builtin_memset", "__builtin___memset_chk") and r[0] == "ok" and len(r) > 3:
+                        # the zero fill of a fresh handle array covers the slots of every element already queued: (index+1) pointers
+                        idx = s2.env.get("v:index")
+                        from sa.num import entails as _ent, Poly as _P
+                        okc = idx is not None and _ent(s2, r[3]) and _ent(s2, (idx + 1) * 8 - sz)
+                        R.check(okc, "COVER", "push_ref:zero-fill-covers-existing-slots", where(f, nd), "the zero fill starts at the array and covers at least (index+1) pointer slots (size %r)" % sz,
+                                "the zero fill of the new handle array covers %r bytes from offset %r, fewer than the (index+1) slots in use: slots of elements queued before the first handle keep allocator garbage that s_swap later dereferences" % (sz, r[3]))
         R.require(n >= 1, "%s: no memory operation found" % name)
 
 
@@ -318,11 +326,23 @@ def queue_rules(R, P):
                     "the comparator result is not tested with `> 0` here: sift-up and sift-down would disagree on the order")
     e_ = fns["s_sift_either"]
     R.check(len(e_.calls("s_sift_up")) == 1 and len(e_.calls("s_sift_down")) == 1, "HEAP-SHAPE", "sift-either", "s_sift_either()", "tries sift-up, else sift-down")
+    up_, dn_ = e_.calls("s_sift_up"), e_.calls("s_sift_down")
+    if up_ and dn_:
+        # the element put into the hole comes from the bottom of ANOTHER subtree: it may have to move up even when the hole
+        # is a leaf.  Every path re-sifts: sift-up is attempted unless the slot is the root, sift-down runs unless sift-up moved it
+        tse = Typestate(e_, frozenset(), lambda e, s: s | {"up"} if e is up_[0] else (s | {"down"} if e is dn_[0] else s))
+        unsifted = [sorted(s) for s in tse.exit_states if not s]
+        gu = [RU.cmp_norm(e_, c_, p_) for c_, p_, b_ in RU.guards(e_, up_[0])]
+        gu_txt = [(e_.show(RU.uncast(e_, g_[0])), g_[1]) for g_ in gu if g_]
+        R.check(not unsifted and all(t_ in (("index", "!="),) for t_ in gu_txt), "HEAP-SHAPE", "sift-either:every-path-re-sifts", "s_sift_either()", "no path returns without sifting; sift-up is skipped only for the root (%s)" % gu_txt,
+                "s_sift_either can return without re-ordering (or skips sift-up under %s): an element moved into a leaf slot from another subtree stays below a larger parent, so pop no longer returns the minimum" % gu_txt)
     sw = dn.calls("s_swap") + up.calls("s_swap")
     R.check(len(sw) == 2, "HEAP-SHAPE", "sifts-use-s_swap", "priority_queue.c", "sifting moves elements only through s_swap (handles follow)")
 
 
 MUTANTS = [
+    {"name": "sift-either-skips-leaves", "file": PQ, "expect": "HEAP-SHAPE", "old": "    if (!index || !s_sift_up(queue, index)) {\n        s_sift_down(queue, index);", "new": "    if (LEFT_OF(index) >= aws_array_list_length(&queue->container)) {\n        return;\n    }\n    if (!index || !s_sift_up(queue, index)) {\n        s_sift_down(queue, index);"},
+    {"name": "handle-array-zero-fill-in-bytes-of-index", "file": PQ, "expect": "COVER", "old": "        memset(queue->backpointers.data, 0, queue->backpointers.current_size);", "new": "        memset(queue->backpointers.data, 0, index);"},
     {"name": "swap-second-reindex-else-if", "file": PQ, "expect": "LOCKSTEP", "old": "            (*bp_a)->current_index = a;\n        }\n\n        if (*bp_b) {", "new": "            (*bp_a)->current_index = a;\n        } else if (*bp_b) {"},
     {"name": "push-registers-only-while-in-use", "file": PQ, "expect": "LOCKSTEP", "old": "    if (!AWS_IS_ZEROED(queue->backpointers)) {\n        if (aws_array_list_set_at(", "new": "    if (backpointer || aws_array_list_length(&queue->backpointers) > 0) {\n        if (aws_array_list_set_at("},
     {"name": "mem-swap-skips-last-slice", "file": "source/array_list.c", "expect": "COVER",
